@@ -2,6 +2,7 @@ package main
 
 import (
 	"fmt"
+	"io"
 	"sort"
 	"sync"
 	"time"
@@ -48,6 +49,33 @@ func genC14(cs *CaseSet, rng *Rng, tier string, dir string) {
 			env.Srv.ClientMgr.Delete(cc.ID)
 			cs.Add(Case{Kind: "send-one", Ops: []Op{mkOp(1, "sendTransaction", data)}, Obs: [][][]byte{{w}}, NonTrivial: n > 32768-26})
 		}
+	}
+	// ---- two transactions drained in turns: the first is read for a while, the second is read completely (as another
+	// sender goroutine would do in between), then the rest of the first is read - each must come out whole ----
+	{
+		env := NewEnv(dir+"-turns", EnvOpts{})
+		cc := env.Srv.NewClientConn(&recConn{}, "10.14.0.2:1")
+		nT := 24
+		if tier == "thorough" {
+			nT = 200
+		}
+		for k := 0; k < nT; k++ {
+			d1 := patBytes(rng.Pick(600, 5000, 40000, 65535, 513, 1024), byte(k))
+			d2 := dataBytes(rng, rng.Pick(0, 10, 400, 3000, 60000))
+			first := rng.Pick(1, 22, 512, 4096)
+			t1 := hotline.NewTransaction(hotline.TranServerMsg, cc.ID, hotline.NewField(hotline.FieldData, d1))
+			t2 := hotline.NewTransaction(hotline.TranServerMsg, cc.ID, hotline.NewField(hotline.FieldData, d2))
+			t1.ID, t2.ID = [4]byte{0, 0, 0, 1}, [4]byte{0, 0, 0, 1}
+			buf := make([]byte, first)
+			n, _ := t1.Read(buf)
+			out1 := append([]byte{}, buf[:n]...)
+			out2, _ := io.ReadAll(&t2)
+			rest, _ := io.ReadAll(&t1)
+			out1 = append(out1, rest...)
+			cs.Add(Case{Kind: "drained-in-turns", Ops: []Op{mkOp(3, "two-transactions-in-turns", d1, d2, be32(first))},
+				Obs: [][][]byte{{out1, out2}}, NonTrivial: len(d1) > first})
+		}
+		env.Srv.ClientMgr.Delete(cc.ID)
 	}
 	// ---- load: several clients fire requests back to back while broadcasts and large replies are in flight ----
 	nRuns := 15
